@@ -110,7 +110,7 @@ pub fn decode(t: &mut Tape) -> NetCase {
 pub fn check(ctx: &mut Ctx) {
     ctx.rule = "1-5 removeparam rules (8 parameter names incl. case variants, 8 patterns, extra options such as types/domain/party/important) + blocking/important/exception companions and malformed removeparam spellings; 1-5 raw URLs whose query mixes empty keys/values, bare keys, '=' inside values, '&&', leading/trailing '&', percent escapes, non-ASCII, and whose fragment may contain '?', '#' and parameters. Oracle: query surgery on the raw input string (query = first '?' before the first '#'; remove pairs k=v with non-empty v and k equal to a matching rule's name; '?' dropped only when nothing remains; None when nothing removed or an important rule blocks); which rules match comes from NetworkFilter::matches. Non-trivial = rewrite that keeps some parameters, or matching rule that must not rewrite (near-miss key / empty value).".into();
     ctx.assumptions = vec!["the rewritten URL is compared byte for byte with the model's".into()];
-    let n = ctx.tier.pick(80_000, 4_000_000);
+    let n = ctx.tier.pick(1_500_000, 10_000_000);
     drive(ctx, "removeparam", n, 300, &decode, &check_case);
 }
 
